@@ -31,6 +31,7 @@ var (
 	fVerbose = flag.Bool("vv", false, "print the event log of every run")
 	fHashes  = flag.Bool("runhashes", false, "record the trace hash of every run")
 	fNoShr   = flag.Bool("noshrink", false, "do not minimise failing runs")
+	fNoRep   = flag.Bool("noreplay", false, "stop at the first violation and write no replay file (sequence replays: nothing but the runs themselves executes in the process)")
 )
 
 type ViolOut struct {
@@ -254,6 +255,10 @@ func TestWorker(t *testing.T) {
 			}
 			seenSig[r.Viol.Sig] = true
 			v := ViolOut{Sig: r.Viol.Sig, Detail: r.Viol.Detail, Seed: *fSeed, Run: run, Hash: fmt.Sprintf("%016x", r.Hash)}
+			if *fNoRep {
+				out.Viols = append(out.Viols, v)
+				break
+			}
 			v.Replay = writeReplay(t, prop, run, r)
 			out.Viols = append(out.Viols, v)
 		}
